@@ -3,6 +3,7 @@
 cd "$(dirname "$0")" || exit 1
 export PYTHONPATH="${VERIF_REPO:-/repo}:$(pwd)" PYTHONHASHSEED=0 PYTHONWARNINGS=ignore
 mkdir -p build evidence replays coq/Generated
+/venv/bin/python harness/unitables.py >/dev/null || exit 1
 /venv/bin/python harness/tables.py || exit 1
 cd coq && coq_makefile -f _CoqProject -o Makefile >/dev/null && timeout 3000 make -j16 >../build/setup-make.log 2>&1 || { tail -30 ../build/setup-make.log; exit 1; }
 cd .. && /venv/bin/python -c "from harness import lib; lib.build_runner()" || exit 1
